@@ -64,7 +64,7 @@ def run(ctx):
 
         # ---- binding: real outputs -> strict parser -> records -> TLC
         rec = os.path.join(d, "records.ndjson")
-        limit = 150 if ctx.quick else 4200
+        limit = 110 if ctx.quick else 4200
         p = vlib.sh([binp, "layout", "--out", rec, "--tier", ctx.tier, "--seed", str(ctx.seed), "--work", os.path.join(d, "w"),
                      "--limit", str(limit)], timeout=3000)
         summ = _summary(p)
